@@ -13,4 +13,6 @@ def check(ctx, rep):
     if not m.ok:
         return
     A.rule_task_closure(m, rep, 'R1', handler=True)
+    # the wrapped sink is driven by the task only (never by emit on the caller's thread): its failures always meet the handler
+    A.rule_isolation(m, rep, 'R1i')
     B.rule_handler_plumbing(m, rep)
